@@ -28,7 +28,7 @@ ITEM_HARNESS = {
     'types::SourceMap::get_source': ['root_setters'], 'types::SourceMap::set_source_contents': ['root_setters'], 'types::Token::get_source': ['rewrite', 'roundtrip'],
     'types::Token::get_name': ['rewrite', 'roundtrip'],
     'types::SourceMapIndex::lookup_token': ['index_flatten', 'index_nested'], 'types::SourceMapSection::get_offset': ['index_flatten'],
-    'types::SourceMapIndex::flatten': ['index_flatten', 'index_nested'], 'types::SourceMapSectionIter::next': ['index_flatten'], 'types::SourceMapIndex::sections': ['index_flatten'],
+    'types::SourceMapIndex::flatten': ['index_flatten', 'index_nested'], 'types::DecodedMap::lookup_token': ['index_nested', 'index_flatten'], 'hermes::SourceMapHermes::deref': ['hermes_scope'], 'types::SourceMapSectionIter::next': ['index_flatten'], 'types::SourceMapIndex::sections': ['index_flatten'],
     'types::SourceMapIndex::get_file': ['index_flatten'], 'types::SourceMapSection::get_sourcemap': ['index_flatten'], 'types::SourceMapIndex::get_section': ['index_flatten'],
     'hermes::SourceMapHermes::get_scope_for_token': ['hermes_scope'],
     'types::SourceMap::adjust_mappings::create_ranges': ['adjust', 'adjust_dups'], 'types::SourceMap::rewrite_with_mapping': ['rewrite'], 'decoder::decode_regular__tail': ['decode_document', 'roundtrip'],
